@@ -261,3 +261,42 @@ def deleteWithFksV (fks : List FkDecl) (fuel : Nat) (db : Db) (t : Nat) (pk : Li
   | .ok (db1, _) => .ok (db1.set t ((db1 t).filter (fun r => !((victims.map (keyOf pk)).contains (keyOf pk r)))))
 
 end VibeProof.Dml
+
+/-! ### referential actions and the savepoint undo log (storage `Database::update_row_recorded`,
+`undo_change` for `TransactionChange::Update`)
+
+A referential action that rewrites child rows (ON UPDATE CASCADE / SET NULL / SET DEFAULT, ON DELETE
+SET NULL / SET DEFAULT) goes through `update_row_recorded`: read the row at the position, write the new
+row, record `(old, new)`.  ROLLBACK TO SAVEPOINT undoes the recorded changes newest first; an update is
+undone by value: remove one row equal to `new`, insert `old` (at the end). -/
+namespace VibeProof.Dml
+open VibeProof
+
+/-- one recorded write; `none` = position past the end (`ColumnIndexOutOfBounds`, nothing recorded) -/
+def updateRecorded (rows : List Row) (i : Nat) (new : Row) : Option (List Row × (Row × Row)) :=
+  match rows[i]? with
+  | none => none
+  | some old => some (rows.set i new, (old, new))
+
+/-- the writes of one referential action, log newest first -/
+def applyRecorded : List Row → List (Nat × Row) → List Row × List (Row × Row)
+  | rows, [] => (rows, [])
+  | rows, (i, new) :: us =>
+    match updateRecorded rows i new with
+    | none => applyRecorded rows us
+    | some (rows1, e) =>
+      let r := applyRecorded rows1 us
+      (r.1, r.2 ++ [e])
+
+/-- `undo_change (Update { old_row, new_row })`: `remove_row(&new_row)` then `insert(old_row)` -/
+def undoOne (rows : List Row) (e : Row × Row) : Option (List Row) :=
+  if e.2 ∈ rows then some (rows.erase e.2 ++ [e.1]) else none
+
+def undoAll : List Row → List (Row × Row) → Option (List Row)
+  | rows, [] => some rows
+  | rows, e :: es =>
+    match undoOne rows e with
+    | none => none
+    | some rows' => undoAll rows' es
+
+end VibeProof.Dml
